@@ -185,7 +185,7 @@ def run(ctx):
         # the HUGRs of the repository's own tests (hand-written, realistic), optionally followed by a history
         from vf.repo_corpus import documents
 
-        for k, c in enumerate(documents()):
+        for k, c in enumerate((ctx.guard("repo-doc", None, documents) or [])):
             for variant in range(2):
                 case = dict(c)
                 if variant:
